@@ -80,3 +80,13 @@ Fixpoint py_flat_map_o {A B} (f : A -> outcome (list B)) (l : list A) : outcome 
   | [] => Ok []
   | x :: r => do here <- f x; do rest <- py_flat_map_o f r; Ok (here ++ rest)
   end.
+
+(* ---- added for IPListMixin.__getitem__ (third round) ---- *)
+(* try: <body> / except E1: raise E2(..): an exception of class E1 leaving the body is replaced by E2.  E1 is compared by
+   class: none of the exception classes of Base/PyVal.v derives from another one (AddrFormatError, AddrConversionError and
+   NotRegisteredError derive from Exception; OutOfFuel and Unsupported are modelling devices, never caught). *)
+Definition py_except {A} (e1 e2 : exn) (o : outcome A) : outcome A :=
+  match o with
+  | Raise e => if exn_eqb e e1 then Raise e2 else Raise e
+  | Ok a => Ok a
+  end.
